@@ -302,7 +302,9 @@ Lemma stream_window_start_le_end checked hdr range file_len start end_ len :
 Proof.
   intros Hs. unfold stream_window. destruct range as [[s e]|].
   - apply sanitize_range_ordered in Hs as [Hle _]. unfold sub_u64.
-    destruct (N.leb_spec s e) as [_|]; [|lia]. cbn [obind].
+    destruct (N.leb_spec file_len s) as [|Hin]; [discriminate|].
+    assert (Hm : s <= N.min e file_len) by (destruct (N.min_spec e file_len) as [[_ ->]|[_ ->]]; lia).
+    destruct (N.leb_spec s (N.min e file_len)) as [_|]; [|lia]. cbn [obind].
     destruct (N.ltb_spec 9223372036854775807 s) as [Hbig|Hsmall]; intros Hw; inversion Hw; subst.
     repeat split; lia.
   - unfold sub_u64. destruct (N.leb_spec 0 file_len) as [_|]; [|lia]. cbn [obind].
